@@ -67,7 +67,7 @@ func c27Fit(in string) eng.Res {
 		def := math.Max(-dw, -dh)
 		mag := "by-more-than-2px"
 		if def <= 2+fitEps {
-			mag = "by-at-most-2px(integer-rounding-of-placement)"
+			mag = "by-at-most-2px(integer-rounding)"
 		}
 		if typ == shape.CLOUD_TYPE && cloudClass(w, h) != cloudClass(w+px, h+py) {
 			return eng.Bad("inner-box-smaller-than-content:Cloud:fit-picks-aspect-class-from-padded-size-but-inner-box-from-unpadded", detail())
